@@ -15,6 +15,7 @@ import (
 	"github.com/ThreeDotsLabs/watermill/components/forwarder"
 	"github.com/ThreeDotsLabs/watermill/components/requeuer"
 	"github.com/ThreeDotsLabs/watermill/message"
+	"github.com/ThreeDotsLabs/watermill/message/router/middleware"
 	"github.com/ThreeDotsLabs/watermill/pubsub/gochannel"
 	"github.com/ThreeDotsLabs/watermill/verifharness/lib"
 	"pgregory.net/rapid"
@@ -164,7 +165,9 @@ func TestForwarder(t *testing.T) {
 					payload = valid + rapid.SampledFrom([]string{"}", " trailing", valid, "\n{}", "]", "0"}).Draw(t, "trailing")
 				}
 				before := len(d.Calls())
-				ds, acked := deliver(t, d, subs[0], func() *message.Message { return message.NewMessage("bad", []byte(payload)) }, 1)
+				// (UUIDs of transport messages are not unique: producers without ids, small id spaces)
+				badUUID := rapid.SampledFrom([]string{"bad", "", "transport-1"}).Draw(t, "transportUUID")
+				ds, acked := deliver(t, d, subs[0], func() *message.Message { return message.NewMessage(badUUID, []byte(payload)) }, 1)
 				if len(d.Calls()) != before {
 					t.Fatalf("violation: invalid envelope %q was forwarded", payload)
 				}
@@ -198,8 +201,12 @@ func TestForwarder(t *testing.T) {
 			if len(outer) > 0 {
 				interesting = true
 			}
+			transportUUID := rapid.SampledFrom([]string{"<as published>", "<as published>", "bad", "", "transport-1"}).Draw(t, "transportUUID")
 			ds, acked := deliver(t, d, subs[0], func() *message.Message {
 				m := envSnap.Msg()
+				if transportUUID != "<as published>" {
+					m.UUID = transportUUID // the envelope's own id on the forwarder topic, not the id of the message inside
+				}
 				for k, v := range outer {
 					m.Metadata[k] = v
 				}
@@ -350,6 +357,15 @@ func TestRequeuer(t *testing.T) {
 			delete(s.Meta, requeuer.RetriesKey)
 			if retriesIn != "<missing>" {
 				s.Meta[requeuer.RetriesKey] = retriesIn
+			}
+			if rapid.IntRange(0, 2).Draw(t, "comesFromAPoisonQueue") == 0 {
+				// what a requeuer usually reads: messages a PoisonQueue middleware put aside, with its notes. Metadata is metadata.
+				s.Meta[middleware.ReasonForPoisonedKey] = "handler failed: " + lib.GenUTF8().Draw(t, "reason")
+				s.Meta[middleware.PoisonedTopicKey] = "orders"
+				if rapid.Bool().Draw(t, "allFourNotes") {
+					s.Meta[middleware.PoisonedHandlerKey] = "orders-handler"
+					s.Meta[middleware.PoisonedSubscriberKey] = "gochannel.GoChannel"
+				}
 			}
 			hasDest := rapid.IntRange(0, 5).Draw(t, "hasDest") != 0
 			delete(s.Meta, "dest")
